@@ -118,6 +118,14 @@ T = [
     ["v = [(lambda: $E), (lambda: $E)]"],
     ["def fe(p):", '    ""', "    $B", '    return ("", $E)'],
     ["def fp(p, /, q=$E, *, k):", "    loc = 1", "    $B", "    return (q, loc, k)"],
+    # operators and displays that have opcodes of their own
+    ["v = (a << 1, a >> 1, a ^ b, a | b, a & b, a - b, a * b, a / b, a // b, a % b, a ** b, a @ $E)"],
+    ["v <<= $E", "v >>= 1", "v ^= 1", "v &= 1", "v |= 1", "v -= 1", "v *= 1", "v /= 1", "v //= 1", "v %= 1", "v **= 1", "v @= a"],
+    ["v = {**a, 'k': $E, **b}", "w = {*a, $E, *b}", "u = {x for x in a}", "f(**a, **b)", "f(*a, *b)"],
+    ["global g2", "g2 = $E", "del g2", "a[0] += 1", "a.b -= 1", "del a[0], a.b"],
+    ["for x in a:", "    try:", "        $B", "        continue", "    finally:", "        v = $E"],
+    # structural pattern matching (3.10)
+    ["match $E:", "    case [p, q, *r]:", "        $B", "    case {'k': p, **rest}:", "        v = 1", "    case C(p, q=1) | D(p, q=2):", "        v = 2", "    case 1 | 2.0 | 'three' if a:", "        v = 3", "    case (p, q) as w:", "        v = 4", "    case _:", "        v = 5"],
     # deleting captured variables (DELETE_DEREF), explicitly and through `except ... as`
     ["def od(p):", "    cv = 1", "    cw = $E", "    def inner():", "        return (cw, cv, p)", "    del cv", "    $B", "    return inner"],
     ["def oe():", "    try:", "        $B", "    except E1 as err:", "        def inner():", "            return err", "        return inner"],
@@ -303,6 +311,8 @@ EQ_GROUPS = [
     ["'a'", "b'a'"],
     ["(0.0,)", "(-0.0,)", "(0,)"],
     ["(1e999-1e999)", "-(1e999-1e999)", "1e999*0"],
+    ["(1+0j)", "-(-1+0j)"],
+    ["(-0.0+0j)", "(0.0-0j)", "0j", "-0j"],
 ]
 
 
@@ -333,6 +343,14 @@ def prog_Q():
     yield {"k": "src", "s": "Q", "src": "def h():\n    return (lambda: 1e999-1e999); cb = lambda: 1e999-1e999\n", "mode": "exec", "opt": 0}
     yield {"k": "src", "s": "Q", "src": "def h():\n    assert True or (lambda: 1e999-1e999); return lambda: 1e999-1e999\n", "mode": "exec", "opt": 0}
     yield {"k": "src", "s": "Q", "src": "def h(x):\n    while x or (lambda: 1e999-1e999):\n        x = lambda: 1e999-1e999\n    return (1e999-1e999, -(1e999-1e999))\n", "mode": "exec", "opt": 0}
+    # equal nested code objects in different parents; a repeated code constant followed
+    # by a new one in the same block
+    yield {"k": "src", "s": "Q", "src": "f = lambda: (lambda: 1); g = lambda x: (lambda: 1)\n", "mode": "exec", "opt": 0}
+    yield {"k": "src", "s": "Q", "src": "fs = [lambda: 1, lambda: 1, lambda: 2]\n", "mode": "exec", "opt": 0}
+    yield {"k": "src", "s": "Q", "src": "def h():\n    return [lambda: 1, lambda: 2, lambda: 1, lambda: 3, (lambda: 2)]\n", "mode": "exec", "opt": 0}
+    # the ignored operand byte of argument-less instructions set by hand (NoArg(_arg))
+    yield {"k": "src", "s": "Q", "src": "def f(a):\n    a[0]\n    return -a\nx = f\n", "mode": "exec", "opt": 0, "patch_noarg": 7}
+    yield {"k": "src", "s": "Q", "src": "x = -a\n", "mode": "exec", "opt": 0, "patch_noarg": 255}
     # different sibling code objects on one line whose constants have colliding hashes
     for a, b in HASH_COLLIDING:
         for x, y in ((a, b), (b, a)):
@@ -344,7 +362,7 @@ HASH_COLLIDING = [("-1", "-2"), ("0", "2305843009213693951"), ("1", "23058430092
 
 
 def n_prog_Q():
-    return sum(len(g) + 4 * len(g) * (len(g) - 1) for g in EQ_GROUPS) + 3 + 4 * len(HASH_COLLIDING)
+    return sum(len(g) + 4 * len(g) * (len(g) - 1) for g in EQ_GROUPS) + 8 + 4 * len(HASH_COLLIDING)
 
 
 def prog_P1():
@@ -456,6 +474,13 @@ def _src_lnotab_inside(n):
     return "".join("x%d = %d\n" % (i, 1000 + i) for i in range(n)) + "def f(a=(1, 2),\n      b=(3, 4)):\n    pass\n"
 
 
+def _src_nop_ext(n):
+    """3.10 keeps a NOP (with the operand of the LOAD_CONST it replaced) for a constant
+    condition that is alone on its line: with more than 255 constants before it, that
+    NOP carries an EXTENDED_ARG prefix."""
+    return "".join("x%d = %d\n" % (i, 1000 + i) for i in range(n)) + "if (2\n        and 3):\n    y = 1\nwhile (5\n       ):\n    break\n"
+
+
 def _src_dispatch(n):
     """A function with n conditional returns: more than n jump targets in one code object."""
     return "def f(a):\n" + "".join("    if a == %d: return %d\n" % (i, i % 7) for i in range(n)) + "    return -1\n"
@@ -477,6 +502,7 @@ FEAT = {
     "lnotab_inside": _src_lnotab_inside,
     "unref_tail": _src_unref_tail,
     "dispatch": _src_dispatch,
+    "nop_ext": _src_nop_ext,
     "names": _src_names,
     "consts": _src_consts,
     "locals": _src_locals,
@@ -688,4 +714,26 @@ def case_source(case):
 
 def build_code(case):
     src, fn = case_source(case)
-    return compile(src, fn, case.get("mode", "exec"), dont_inherit=True, optimize=case.get("opt", 0))
+    c = compile(src, fn, case.get("mode", "exec"), dont_inherit=True, optimize=case.get("opt", 0))
+    if case.get("patch_noarg"):
+        c = _patch_noarg(c, case["patch_noarg"])
+    return c
+
+
+def _patch_noarg(c, value):
+    """The same code with the (ignored) operand byte of every argument-less instruction
+    set to `value`, recursively: a legal code object CPython executes identically."""
+    import dis
+    import types
+
+    b = bytearray(c.co_code)
+    for i in range(0, len(b), 2):
+        if b[i] < dis.HAVE_ARGUMENT:
+            b[i + 1] = value
+    consts = tuple(_patch_noarg(k, value) if isinstance(k, types.CodeType) else k for k in c.co_consts)
+    if hasattr(c, "replace"):
+        return c.replace(co_code=bytes(b), co_consts=consts)
+    return types.CodeType(
+        c.co_argcount, c.co_kwonlyargcount, c.co_nlocals, c.co_stacksize, c.co_flags, bytes(b), consts, c.co_names,
+        c.co_varnames, c.co_filename, c.co_name, c.co_firstlineno, c.co_lnotab, c.co_freevars, c.co_cellvars,
+    )
